@@ -133,7 +133,9 @@ def parseScript (s : String) : Option (List Step) :=
   if s == "-" then some [] else (s.splitOn ",").mapM parseStep
 
 def parseKind : String → Option Kind
-  | "o" => some .octet | "c" => some .chunk | _ => none
+  | "o" => some .octet | "c" => some .chunk
+  -- "b" / "b:<cap>": the library's buffer-backed endpoints; a chunk driver whose behaviour the operation's script spells out
+  | k => if k == "b" || k.startsWith "b:" then some .chunk else none
 
 def rStr (strict : Bool) : R → String
   | .ok n => s!"ok:{n}"
